@@ -207,7 +207,21 @@ def real(cell):
     return {'v': out[:4], 'n': n, 'nt': cell, 'states': 1, 'transitions': n, 'traces': 1, 'obs': [unimodal, len(rows)]}
 
 
-PARTS = {'lookup': lookup, 'negative': negative, 'apex': apex, 'real': real}
+def reuse(cell):
+    """the trajectory as it is WHEN THE LOOK-UP IS MADE: the same list object is looked up, refilled in place with other rows of the same length,
+    and looked up again; and a second result object is looked up after the first (nothing may be remembered between look-ups)"""
+    ts_a, ts_b = cell
+    out = []
+    rows = [_row(t, t) for t in ts_a]
+    n = _check_lookups(rows, QUERIES, ('Meter',), out, f'first contents times={ts_a}')
+    rows[:] = [_row(t, t) for t in ts_b]            # same list object, same length, different rows
+    n += _check_lookups(rows, QUERIES, ('Meter',), out, f'list refilled in place: times={ts_a} -> {ts_b}')
+    other = [_row(t, t) for t in ts_a]
+    n += _check_lookups(other, QUERIES, ('Meter',), out, f'another trajectory after the first: times={ts_a}')
+    return {'v': out, 'n': n, 'states': 3, 'transitions': n, 'traces': 1, 'nt': cell}
+
+
+PARTS = {'lookup': lookup, 'negative': negative, 'apex': apex, 'real': real, 'reuse': reuse}
 
 
 def nondecreasing(L):
@@ -228,4 +242,8 @@ def plan(tier):
     neg = [[], [0], [0, 1, 2], [1, 1, 3]]
     ap = [[0, 0, False]] + [[p, L, pl] for L in range(1, 8) for p in range(L) for pl in (False, True)]
     rl = [[{'zero': 0.5, 'mv': 2750.0}, 600, 25], [{'zero': 3.0, 'look': 15.0}, 400, 10], [{'zero': 30.0, 'mv': 900.0, 'dm': 'G1', 'bc': 0.3}, 300, 20]]
-    return [('lookup', cells), ('negative', neg), ('apex', ap), ('real', rl)]
+    ru = []
+    for L in (1, 2, 3) if tier == 'quick' else (1, 2, 3, 4):
+        ls = nondecreasing(L)
+        ru += [[a, b] for a in ls for b in ls if a != b]
+    return [('lookup', cells), ('negative', neg), ('apex', ap), ('real', rl), ('reuse', ru)]
